@@ -228,9 +228,27 @@ func (c *Chain) ExecBlock(txs []pb.Transaction, allLocal bool, deadline time.Dur
 	c.Exec.ExecuteBlock(&pb.CommitEvent{Block: block, LocalList: local})
 	select {
 	case ev := <-c.blockCh:
+		c.waitCleared()
 		return &ev
 	case <-time.After(deadline):
 		return nil
+	}
+}
+
+// waitCleared waits for the executor's trailing ledger.Clear(): the executed-block event is
+// posted BEFORE processExecuteEvent clears the in-block account objects, so a seeding write
+// issued right after the event could otherwise be wiped.  Every block loads at least the
+// transaction-manager account (getTimeoutList), so "no loaded account" means Clear() has run.
+func (c *Chain) waitCleared() {
+	sl, ok := c.Ledger.StateLedger.(*ledger.SimpleLedger)
+	if !ok {
+		return
+	}
+	for i := 0; i < 4000; i++ {
+		if sl.VerifLoadedAccounts() == 0 {
+			return
+		}
+		time.Sleep(500 * time.Microsecond)
 	}
 }
 
